@@ -16,4 +16,9 @@ if [ "$1" = "replay" ]; then
   exit $?
 fi
 TIER="${2:-${VERIF_TIER:-quick}}"
-"$VERIF_ROOT/mc/bin/verifmc" check "$1" "$TIER"
+# A broken tree must not hang a check: hard cap (exit 2 = neither pass nor violation).
+CAP=${VERIF_TIMEOUT:-3000}; [ "$TIER" = "thorough" ] && CAP=${VERIF_TIMEOUT:-14400}
+timeout --signal=KILL "$CAP" "$VERIF_ROOT/mc/bin/verifmc" check "$1" "$TIER"
+rc=$?
+if [ $rc -eq 137 ]; then echo "INTERNAL-ERROR: check $1 exceeded its ${CAP}s cap"; exit 2; fi
+exit $rc
